@@ -167,6 +167,7 @@ def build_session(args):
         if kind == "dec":
             src, mother = payload[0], payload[1]
             cz = decio.Concretiser(rng, readable=True)
+            cz.zero_literals = True       # a branching fraction written 0 / 0.0 / 0.0000 is a value like any other
             # real EvtGen names (with their HTML spellings) for half of the abstract names
             evt = [n for n in decio.pdg_tables()["evt"] if decio.label_ok(n)]
             for a in ("A", "B", "C", "x", "y", "P0", "P1", "P2", "P3", "P4", "P5", "d0", "d1", "d2", "d3"):
@@ -188,7 +189,7 @@ def build_session(args):
                 add_view(p.build_decay_chains(m, stable_particles=st), text)
         else:
             c = cio.norm_chain(payload)
-            ccz = cio.ChainCZ(rng, cio.chain_names(c), real_only=rng.random() < 0.5)
+            ccz = cio.ChainCZ(rng, cio.chain_names(c), real_only=rng.random() < 0.5, zero=True)
             add_view(cio.build_chain(ccz, c, rng=rng, bf_float=True).to_dict(), json.dumps(c))
     return {"sid": sid, "views": session}
 
